@@ -41,6 +41,7 @@ XSet(id) ==
     [] id = 4 -> << I(-1), Q(-3, 4), Q(-1, 2), Q(-1, 4), Zero, Q(1, 4), Q(1, 2), Q(3, 4), One >>
     [] id = 5 -> << Zero, Zero, One, One, I(-1), I(-1), Q(1, 2), Q(-1, 2) >>                 \* repeated abscissae
     [] id = 6 -> << I(-1), Q(-1, 2), Zero, Q(1, 3), Q(1, 2), One >>                          \* not symmetric
+    [] id = 7 -> << I(2), I(-1), Zero, One, I(-2), I(3) >>                                   \* integers (handed over in integer types too)
 WPat(id, n) == [i \in 1..n |-> CASE id = 1 -> 1 [] id = 2 -> i [] id = 3 -> (i % 3) + 1 [] id = 4 -> ((i * i) % 5) + 1]
 DyPat(id, n) == [i \in 1..n |-> CASE id = 0 -> 0 [] id = 1 -> Sgn(i) [] id = 2 -> (IF i = 2 THEN 3 ELSE 0)
                                   [] id = 3 -> ((i * i) % 3) - 1 [] id = 4 -> (i % 4) - 2]
